@@ -37,9 +37,9 @@ func init() {
 	register(&Prop{
 		ID:       "C37",
 		Title:    "Create and Set change exactly what they name",
-		Patterns: []string{"./d2oracle", "./d2ast", "./d2graph"},
-		Explanation: "Decides two narrow clauses: (1) every key returned by generateUniqueKey is returned on a path on which an existence test of that key failed (HasChild/HasEdge reported false, or the object found is the one being ignored) — so Create never returns the ID of an existing element; " +
-			"(2) the value _set writes is the API argument passed through d2ast.RawString and nothing else (no other string-node constructor sees a non-constant value in d2oracle).",
+		Patterns: []string{"./d2oracle", "./d2ast", "./d2graph", "./d2format", "./d2parser"},
+		Explanation: "Decides four narrow clauses: (1) every key returned by generateUniqueKey is returned on a path on which an existence test of that key failed (HasChild/HasEdge reported false, or the object found is the one being ignored) — so Create never returns the ID of an existing element; " +
+			"(2) the value _set writes is the API argument passed through d2ast.RawString and nothing else (no other string-node constructor sees a non-constant value in d2oracle); (3) RawString in value context quotes every string the parser would read back as something else (null, suspend, unsuspend and the booleans in any letter case, delimiters, escapes keep their case) — the C05 generator clauses for values, adopted here because Set's exactness rests on them; (4) after a mutator resolved the addressed board, element lookups and generateUniqueKey run on the board's graph, not on the root graph (the C41 board-root clause): a name that exists only on the board is otherwise returned as new.",
 		NotCovered: "that every other element is unchanged, that the created element has the returned ID after recompilation",
 		Technique:  "static analysis: guard queries on go/cfg, who-constructs inventory",
 		Run:        runC37,
@@ -948,4 +948,31 @@ func runC37(c *core.Check) {
 		}
 	}
 	checkRawString(c, "C37.rawstring")
+
+	// (3) what RawString(value, false) prints reads back as the same string: the generator clauses of C05
+	c.Rule("C37.value-quoting", "RawString in value context quotes every value the parser would read as a keyword (C05 clauses)")
+	sub := core.NewSubCheck(c)
+	runC05(sub)
+	for _, b := range sub.BrokenList() {
+		c.Broken("C05 clause: %s", b)
+	}
+	nq := 0
+	for _, o := range sub.Obligations() {
+		if o.Rule == "C05.value-keywords" || o.Rule == "C05.escape-keeps-case" || (o.Rule == "C05.delimiters" && strings.HasPrefix(o.Key, "value:")) {
+			c.Adopt("C37.value-quoting", o)
+			nq++
+		}
+	}
+	if nq < 5 {
+		c.Fail("C37.value-quoting", "value-quoting:inventory", token.NoPos, fmt.Sprintf("only %d C05 value clauses found", nq))
+	}
+	// (4) names are tested for existence on the addressed board: the board-root clause of C41
+	c.Rule("C37.board-graph", "after the board is resolved, lookups and unique-name generation use the board's graph (C41 clause)")
+	sub2 := core.NewSubCheck(c)
+	runC41Scope(sub2)
+	for _, o := range sub2.Obligations() {
+		if o.Rule == "C41.board-root" {
+			c.Adopt("C37.board-graph", o)
+		}
+	}
 }
